@@ -372,6 +372,14 @@ impl HeapBuffer {
         #[cfg(loom)]
         return unsafe { header.count.unsync_load() };
     }
+
+    /// Verification driver: overwrites the reference count in front of `data_ptr` (used to reach counts that
+    /// would take hours of cloning).
+    #[cfg(all(feature = "verif-hooks", not(loom)))]
+    pub(super) unsafe fn verif_set_refcount_of_data_ptr(data_ptr: *const u8, count: usize) {
+        let header: &Header = unsafe { &*data_ptr.sub(HeapBuffer::header_offset()).cast() };
+        header.count.store(count, Relaxed);
+    }
 }
 
 /// const version of `std::cmp::max::<usize>(x, y)`.
